@@ -110,4 +110,15 @@ pub proof fn lemma_seq_prod_zero<const N: usize>(s: Seq<BUint<N>>, i: int)
     super::nl::lemma_mul_one(seq_prod(s.remove(i)) as int);
 }
 
+
+/// peeling the first factor off a product
+pub proof fn lemma_seq_prod_skip<const N: usize>(s: Seq<BUint<N>>, i: int)
+    requires 0 <= i < s.len()
+    ensures seq_prod(s.skip(i)) == uv(s[i]) * seq_prod(s.skip(i + 1))
+{
+    let t = s.skip(i);
+    assert(t.subrange(1, t.len() as int) =~= s.skip(i + 1));
+    assert(t[0] == s[i]);
+}
+
 } // verus!
